@@ -1,32 +1,47 @@
 """C11 -- in play, keep-alives and teleports are always answered; unknown
-packets pass.  Per-arm obligations on PlayingReactor.react plus a three-way
-agreement of version predicates decided by folding over all versions."""
+packets pass.  Per-arm obligations on the path summaries of
+PlayingReactor.react plus a three-way agreement of version predicates
+decided by folding over all versions."""
 import ast
 
 from ..common import AnalysisError, rel
 from ..callgraph import CallGraph
 from ..connmodel import ConnModel, CONN
-from ..cfg import cfg_of
 from ..protocol import Proto, Raises, type_name
 from ..fold import ClassVal, Env
-from .. import shared, boolfn
-from .c10 import find_calls, compression_arm
+from .. import shared, boolfn, pathsum
+from ..pathsum import struct, show, is_const, subterms, path_terms
+from .c10 import compression_arm
 
 SB_PLAY = 'minecraft.networking.packets.serverbound.play'
 CB_PLAY = 'minecraft.networking.packets.clientbound.play'
 
 
+def sy(n):
+    return ('sym', n)
+
+
+def at(base, *names):
+    for n in names:
+        base = ('attr', base, n)
+    return base
+
+
 def run(report, db, tier):
     report.explanation = (
-        'PlayingReactor.react is a stateless dispatch; each arm is checked '
-        'for "exactly one reply carrying the incoming id" / "spawned on '
-        'every path"; the version test of the teleport arm is compared, by '
-        'folding over every supported version, with the presence of '
-        'teleport_id in the clientbound layout and the registration of '
-        'TeleportConfirmPacket.')
+        'Every path of PlayingReactor.react is summarised (vp.pathsum) and '
+        'grouped by the packet name it handles; each arm is checked for '
+        '"exactly one reply carrying the incoming id" / "spawned on every '
+        'path"; the version decisions on the paths of the teleport arm are '
+        'compared, by folding over every supported version, with the '
+        'presence of teleport_id in the clientbound layout and the '
+        'registration of TeleportConfirmPacket.  The frame reader\'s paths '
+        'decide what happens to unknown ids, the thread loop\'s body paths '
+        'that no packet read is dropped.')
     cg = CallGraph(db)
     M = ConnModel(db, cg)
     P = Proto(db)
+    S = shared.summariser(db, cg)
     pr = db.get_class(CONN, 'PlayingReactor')
     fi = db.own_method(pr, 'react')
     if fi is None:
@@ -34,19 +49,24 @@ def run(report, db, tier):
     R7 = report.rule('R11.7', 'every compared packet_name exists in the '
                      'play table and the arm reads only fields of that '
                      'class, in every version')
-    arms = shared.name_agreement(report, R7, db, P, pr, 'play', M)
-    report.floor('play arms', len(arms), 4)
+    paths = shared.name_agreement_ps(report, R7, db, P, S, pr, 'play')
+    pk = sy(fi.params[1])
+    arms = {}
+    for p in paths:
+        arms.setdefault(shared.arm_of(p, pk), []).append(p)
+    if not report.violations:
+        report.floor('play arms', len([a for a in arms if a is not None]), 4)
     R8 = report.rule('R11.8', 'every packet the play reactor writes has all '
                      'its fields set in every version where the write is '
                      'reachable')
-    n = shared.field_completeness(report, R8, db, cg, P, M, fi)
-    keep_alive(report, db, cg, M, P, fi, arms)
-    position(report, db, cg, M, P, fi, arms)
-    unknown_ids(report, db, cg, M, P, fi, arms)
-    disconnect(report, db, cg, M, P, fi, arms)
+    n = shared.field_completeness_ps(report, R8, db, P, S, fi, paths)
+    keep_alive(report, db, M, P, fi, arms)
+    position(report, db, M, P, fi, arms)
+    unknown_ids(report, db, S, M, P, fi, arms)
+    disconnect(report, db, cg, S, M, P, fi, arms)
     if not report.violations:
         report.floor('play write sites checked', n, 3)
-    no_drop(report, db, cg, M)
+    no_drop(report, db, S, M)
     Rc = report.rule('R11.5', 'set-compression in play (protocol 47) sets '
                      'threshold and flag')
 
@@ -59,84 +79,59 @@ def run(report, db, tier):
 
         def violation(s, rid, *a, **k):
             report.violation(Rc, *a, **k)
-    compression_arm(_S(), db, cg, M, fi, arms)
+    compression_arm(_S(), db, M, fi, arms)
 
 
-def writes_in(body):
-    return find_calls(body, lambda c: isinstance(c.func, ast.Attribute)
-                      and c.func.attr == 'write_packet')
+def writes_of(p):
+    return [e for e in p.flat(('call',)) if e.method() == 'write_packet']
 
 
-def every_path_passes(g, M, fi, st, targets):
-    tests = [n for n in g.reachable_nodes() if n.kind == 'test'
-             and n.ast is st.test]
-    tn = []
-    for t in targets:
-        tn += M.cfg_nodes_of(fi, t)
-    return bool(tests) and bool(tn) and all(
-        g.exists_path(t, lambda x: x is g.exit, avoid=lambda x: x in tn,
-                      start_labels=('true',)) is None for t in tests)
-
-
-def keep_alive(report, db, cg, M, P, fi, arms):
+def keep_alive(report, db, M, P, fi, arms):
     R = report.rule('R11.1', 'keep-alive arm: exactly one reply, carrying '
                     'the incoming id, with the same id codec in both '
                     'directions in every version')
-    if 'keep alive' not in arms:
+    ps = arms.get('keep alive')
+    if not ps:
         report.violation(R, 'keepalive:missing', fi.path, fi.node,
                          fi.qualname, 'keep-alives are never answered: the '
                          'server times the client out')
         return
-    st, body = arms['keep alive']
-    pk = fi.params[1]
-    g = cfg_of(fi)
-    ws = writes_in(body)
-    loops = [x for s in body for x in ast.walk(s)
-             if isinstance(x, (ast.For, ast.While))]
-    if len(ws) != 1 or loops:
-        report.violation(R, 'keepalive:count', fi.path, st, fi.qualname,
-                         'a keep-alive is answered %s (must be exactly '
-                         'once)' % ('in a loop' if loops else '%d times'
-                                    % len(ws)))
-        return
-    if every_path_passes(g, M, fi, st, ws):
-        report.ok(R, 'one write_packet on every path of the arm')
-    else:
-        report.violation(R, 'keepalive:skipped', fi.path, st, fi.qualname,
-                         'a path through the keep-alive arm sends no reply')
-    built = shared.constructed_packets(db, cg, P, fi)
-    a = ws[0].args[0]
-    ci = None
-    idsrc = None
-    if isinstance(a, ast.Name) and a.id in built:
-        ci, kw, asn = built[a.id]
-        for k in asn.value.keywords:
-            if k.arg == 'keep_alive_id':
-                idsrc = ast.unparse(k.value)
-        for s in body:
-            for x in ast.walk(s):
-                if isinstance(x, ast.Assign) and isinstance(
-                        x.targets[0], ast.Attribute) and \
-                        ast.unparse(x.targets[0]) == '%s.keep_alive_id' % a.id:
-                    idsrc = ast.unparse(x.value)
-    elif isinstance(a, ast.Call):
-        ent = db.resolve_dotted(fi.module, a.func)
-        ci = ent if hasattr(ent, 'attrs') else None
-        for k in a.keywords:
-            if k.arg == 'keep_alive_id':
-                idsrc = ast.unparse(k.value)
+    pk = sy(fi.params[1])
     sbk = db.get_class(SB_PLAY, 'KeepAlivePacket')
     cbk = db.get_class(CB_PLAY, 'KeepAlivePacket')
-    if ci is not sbk:
-        report.violation(R, 'keepalive:class', fi.path, ws[0], fi.qualname,
-                         'the reply is a %s, not the serverbound keep-alive'
-                         % getattr(ci, 'qualname', ci))
-    elif idsrc == '%s.keep_alive_id' % pk:
+    prob = {}
+    for p in ps:
+        if not p.returns:
+            continue
+        ws = writes_of(p)
+        if len(ws) > 1 or any(e.loops for e in ws):
+            prob['keepalive:count'] = (
+                ws[0].node, 'a keep-alive is answered %s (must be exactly '
+                'once)' % ('in a loop' if any(e.loops for e in ws)
+                           else '%d times' % len(ws)))
+            continue
+        if not ws:
+            prob['keepalive:skipped'] = (
+                fi.node, 'a path through the keep-alive arm sends no reply '
+                '[%s]' % p.cond_text())
+            continue
+        wp = shared.written_packets(p, P, db)
+        ci = wp[0][1][3] if wp else None
+        if ci is not sbk:
+            prob['keepalive:class'] = (
+                ws[0].node, 'the reply is a %s, not the serverbound '
+                'keep-alive' % getattr(ci, 'qualname', ci))
+            continue
+        v = wp[0][2].get('keep_alive_id')
+        if v is None or struct(v) != at(pk, 'keep_alive_id'):
+            prob['keepalive:id'] = (
+                ws[0].node, 'the reply carries %s instead of the incoming '
+                'keep_alive_id' % (show(v) if v is not None else None))
+    for key, (node, msg) in sorted(prob.items()):
+        report.violation(R, key, fi.path, node, fi.qualname, msg)
+    if not prob:
+        report.ok(R, 'one write_packet on every path of the arm')
         report.ok(R, 'reply.keep_alive_id = packet.keep_alive_id')
-    else:
-        report.violation(R, 'keepalive:id', fi.path, ws[0], fi.qualname,
-                         'the reply carries %s instead of the incoming '
-                         'keep_alive_id' % idsrc)
     # same codec both ways, every version
     bad = []
     for v in P.supported:
@@ -160,205 +155,199 @@ def keep_alive(report, db, cg, M, P, fi, arms):
                   'all %d supported versions' % len(P.supported))
 
 
-def position(report, db, cg, M, P, fi, arms):
+def position(report, db, M, P, fi, arms):
     R = report.rule('R11.2', 'position arm: spawned on every path; teleport '
                     'confirm with the same id from 107 on, position echo '
                     'before; the version test agrees with the layouts')
-    name = 'player position and look'
-    if name not in arms:
+    ps = arms.get('player position and look')
+    if not ps:
         report.violation(R, 'position:missing', fi.path, fi.node,
                          fi.qualname, 'position packets are never '
                          'acknowledged')
         return
-    st, body = arms[name]
-    pk = fi.params[1]
-    g = cfg_of(fi)
-    sp = [x for s in body for x in ast.walk(s) if isinstance(x, ast.Assign)
-          and isinstance(x.targets[0], ast.Attribute)
-          and x.targets[0].attr == 'spawned'
-          and isinstance(x.value, ast.Constant) and x.value.value is True]
-    if sp and every_path_passes(g, M, fi, st, sp):
-        report.ok(R, 'connection.spawned = True on every path of the arm')
-    else:
-        report.violation(R, 'position:spawned', fi.path, st, fi.qualname,
-                         'a path through the position arm does not mark the '
-                         'client as spawned')
-    ws = writes_in(body)
-    if every_path_passes(g, M, fi, st, ws) and ws:
-        report.ok(R, 'an acknowledgement is written on every path')
-    else:
-        report.violation(R, 'position:no-ack', fi.path, st, fi.qualname,
-                         'a path through the position arm sends no '
-                         'acknowledgement')
-    built = shared.constructed_packets(db, cg, P, fi)
+    me, pk = sy(fi.params[0]), sy(fi.params[1])
+    conn = at(me, 'connection')
     tc = db.get_class(SB_PLAY, 'TeleportConfirmPacket')
     pl = db.get_class(SB_PLAY, 'PositionAndLookPacket')
     cbp = db.get_class(CB_PLAY + '.player_position_and_look_packet',
                        'PlayerPositionAndLookPacket')
-    per_write = []
-    for w in ws:
-        a = w.args[0]
-        ci = built[a.id][0] if isinstance(a, ast.Name) and a.id in built \
-            else None
-        wn = M.cfg_nodes_of(fi, w)
-        conds = [shared.version_conditions(P, fi, g, n) for n in wn]
-        per_write.append((w, ci, conds, a))
-        # exactly one write per path: no path from this write to another
-        for w2 in ws:
-            if w2 is not w and any(g.exists_path(
-                    n, lambda x: x in M.cfg_nodes_of(fi, w2)) for n in wn):
-                report.violation(R, 'position:double-ack', fi.path, w2,
-                                 fi.qualname, 'two acknowledgements can be '
-                                 'written for one position packet')
-
-    def holds(conds, v):
-        return any(h(v) for h in conds)
+    prob = {}
+    per_path = []
+    for p in ps:
+        if not p.returns:
+            continue
+        sp = [e for e in p.flat(('store',)) if struct(e.base) == conn
+              and e.attr == 'spawned' and e.value == ('const', True)]
+        if not sp:
+            prob['position:spawned'] = (
+                fi.node, 'a path through the position arm does not mark '
+                'the client as spawned [%s]' % p.cond_text())
+        ws = writes_of(p)
+        if not ws:
+            prob['position:no-ack'] = (
+                fi.node, 'a path through the position arm sends no '
+                'acknowledgement [%s]' % p.cond_text())
+            continue
+        if len(ws) > 1:
+            prob['position:double-ack'] = (
+                ws[1].node, 'two acknowledgements can be written for one '
+                'position packet')
+        wp = shared.written_packets(p, P, db)
+        ci = wp[0][1][3] if wp else None
+        per_path.append((p, ci, shared.path_versions(P, p)))
+        if not wp:
+            continue
+        fields = {k: v for k, v in wp[0][2].items() if k != 'context'}
+        if ci is tc:
+            v = fields.get('teleport_id')
+            if v is None or struct(v) != at(pk, 'teleport_id'):
+                prob['position:teleport-id'] = (
+                    ws[0].node, 'the confirmation carries %s, not the '
+                    'server\'s teleport id' % (show(v) if v else None))
+        elif ci is pl:
+            want = {'x': at(pk, 'x'), 'feet_y': at(pk, 'y'),
+                    'z': at(pk, 'z'), 'yaw': at(pk, 'yaw'),
+                    'pitch': at(pk, 'pitch'), 'on_ground': ('const', True)}
+            got = {k: struct(v) for k, v in fields.items()}
+            if got != want:
+                diff = {k: show(fields[k]) if k in fields else None
+                        for k in want if got.get(k) != want[k]}
+                prob['position:echo'] = (
+                    ws[0].node, 'the position echo differs from the '
+                    'server\'s values: %s' % diff)
     mism = []
     for v in P.supported:
         d = P.definition(ClassVal(cbp), v)
         has_tid = isinstance(d, list) and any('teleport_id' in e for e in d)
         t = P.table('serverbound', 'play', v)
         tc_reg = not isinstance(t, Raises) and ClassVal(tc) in t
-        chosen = [ci for w, ci, conds, a in per_write if holds(conds, v)]
+        chosen = set(ci for p, ci, holds in per_path if holds(v))
         if len(chosen) != 1:
-            mism.append((v, 'writes %d packets' % len(chosen)))
+            mism.append((v, 'answers with %s' % sorted(
+                getattr(c, 'name', str(c)) for c in chosen)))
             continue
         want = tc if has_tid else pl
+        got = list(chosen)[0]
         if has_tid != tc_reg:
             mism.append((v, 'teleport_id in the clientbound layout: %s, but '
                          'TeleportConfirmPacket registered: %s'
                          % (has_tid, tc_reg)))
-        elif chosen[0] is not want:
+        elif got is not want:
             mism.append((v, 'answers with %s although the server %s a '
-                         'teleport id' % (getattr(chosen[0], 'name', None),
+                         'teleport id' % (getattr(got, 'name', None),
                                           'sends' if has_tid
                                           else 'does not send')))
     if mism:
         v, why = mism[0]
-        report.violation(R, 'position:version-test', fi.path, st,
-                         fi.qualname, 'in %d supported version(s), first '
-                         '%s, the arm %s' % (len(mism), P.vname(v), why))
-    else:
-        report.ok(R, 'arm test == teleport_id in layout == '
+        prob['position:version-test'] = (
+            fi.node, 'in %d supported version(s), first %s, the arm %s'
+            % (len(mism), P.vname(v), why))
+    for key, (node, msg) in sorted(prob.items()):
+        report.violation(R, key, fi.path, node, fi.qualname, msg)
+    if not prob:
+        report.ok(R, 'connection.spawned = True and one acknowledgement on '
+                  'every path of the arm')
+        report.ok(R, 'arm decision == teleport_id in layout == '
                   'TeleportConfirmPacket registered, for all %d supported '
                   'versions' % len(P.supported))
-    # what is echoed
-    for w, ci, conds, a in per_write:
-        if not isinstance(a, ast.Name):
-            continue
-        vals = {k.arg: ast.unparse(k.value)
-                for k in built[a.id][2].value.keywords if k.arg} \
-            if a.id in built else {}
-        for s in body:
-            for x in ast.walk(s):
-                if isinstance(x, ast.Assign) and isinstance(
-                        x.targets[0], ast.Attribute) and isinstance(
-                            x.targets[0].value, ast.Name) and \
-                        x.targets[0].value.id == a.id:
-                    vals[x.targets[0].attr] = ast.unparse(x.value)
-        if ci is tc:
-            if vals.get('teleport_id') == '%s.teleport_id' % pk:
-                report.ok(R, 'teleport_confirm.teleport_id = '
-                          'packet.teleport_id')
-            else:
-                report.violation(R, 'position:teleport-id', fi.path, w,
-                                 fi.qualname, 'the confirmation carries %s, '
-                                 'not the server\'s teleport id'
-                                 % vals.get('teleport_id'))
-        elif ci is pl:
-            want = {'x': '%s.x' % pk, 'feet_y': '%s.y' % pk,
-                    'z': '%s.z' % pk, 'yaw': '%s.yaw' % pk,
-                    'pitch': '%s.pitch' % pk, 'on_ground': 'True'}
-            if vals == want:
-                report.ok(R, 'position echo copies x, y, z, yaw, pitch')
-            else:
-                diff = {k: vals.get(k) for k in want if vals.get(k)
-                        != want[k]}
-                report.violation(R, 'position:echo', fi.path, w,
-                                 fi.qualname, 'the position echo differs '
-                                 'from the server\'s values: %s' % diff)
+        report.ok(R, 'teleport_confirm.teleport_id = packet.teleport_id; '
+                  'position echo copies x, y, z, yaw, pitch')
 
 
-def unknown_ids(report, db, cg, M, P, fi, arms):
+def unknown_ids(report, db, S, M, P, fi, arms):
     R = report.rule('R11.3', 'unknown ids become generic packets built from '
                     'the per-frame buffer; the reactor has no arm for them')
     rp = M.method(M.reactor, 'read_packet')
-    g = cfg_of(rp)
-    stream = rp.params[1]
-    tests = [n for n in g.reachable_nodes() if n.kind == 'test'
-             and isinstance(n.ast, ast.Compare)
-             and isinstance(n.ast.ops[0], (ast.In, ast.NotIn))
-             and 'clientbound_packets' in ast.unparse(n.ast)]
-    if len(tests) != 1:
+    me, stream = sy(rp.params[0]), sy(rp.params[1])
+    table = at(me, 'clientbound_packets')
+    n_unknown = n_known = 0
+    prob = {}
+    for p in S.run(rp):
+        if not p.returns:
+            continue
+        known = None
+        ident = None
+        k_at = None
+        for i, (a, pol, _) in enumerate(p.conds):
+            if a[1] == 'in' and struct(a[2][1]) == table:
+                known, ident, k_at = pol, a[2][0], i
+            elif a[1] == 'is' and a[2][1] == ('const', None) and \
+                    a[2][0][0] == 'call' and a[2][0][1][0] == 'attr' and \
+                    a[2][0][1][2] == 'get' and \
+                    struct(a[2][0][1][1]) == table and a[2][0][2]:
+                known, ident, k_at = not pol, a[2][0][2][0], i
+            elif a[1] == 'truth' and a[2][0][0] == 'call' and \
+                    a[2][0][1][0] == 'attr' and a[2][0][1][2] == 'get' and \
+                    struct(a[2][0][1][1]) == table and a[2][0][2]:
+                known, ident, k_at = pol, a[2][0][2][0], i
+        if known is None:
+            continue
+        if known:
+            n_known += 1
+            continue
+        n_unknown += 1
+        v = p.value
+        later = []
+        for e in p.events:
+            if e.nconds > k_at:
+                later.append(e)
+                if e.kind == 'loop':
+                    for q in e.paths:
+                        later.extend(q.flat(('call',)))
+        later = [e for e in later if e.kind == 'call']
+        touch = [e for e in later if any(
+            struct(x) == stream for a in (e.fn,) + tuple(e.args)
+            for x in subterms(a))]
+        if touch:
+            prob['unknown:stream'] = (
+                touch[0].node, 'the unknown-id arm reads from the stream: '
+                'it eats bytes of the next frame')
+        elif not (v[0] == 'obj' and v[3] is P.packet_ci
+                  and p.heap.get((v, 'id')) == ident):
+            prob['unknown:generic'] = (
+                rp.node, 'an unknown id does not yield a generic Packet '
+                'carrying that id (it yields %s with id %s)' % (
+                    show(v), show(p.heap.get((v, 'id'), ('const', None)))))
+    if not n_unknown or not n_known:
         raise AnalysisError('read_packet: id dispatch test not found',
                             rp.node, rel(rp.path))
-    t = tests[0]
-    unknown_label = 'false' if isinstance(t.ast.ops[0], ast.In) else 'true'
-    start = [s for s, l in t.succ if l == unknown_label]
-    seen = set()
-    stack = list(start)
-    arm = []
-    while stack:
-        n = stack.pop()
-        if n in seen or n.ast is None:
-            continue
-        seen.add(n)
-        arm.append(n)
-        if isinstance(n.ast, ast.Return):
-            continue
-        stack.extend(s for s, l in n.succ if l != 'exc')
-    txt = ' ; '.join(ast.unparse(n.ast) for n in sorted(arm,
-                                                        key=lambda x: x.id))
-    touches = [n for n in arm if any(
-        isinstance(x, ast.Name) and x.id == stream for x in n.walk())]
-    idvar = ast.unparse(t.ast.left)
-    sets_id = any(isinstance(n.ast, ast.Assign) and any(
-        isinstance(tt, ast.Attribute) and tt.attr == 'id'
-        for tt in n.ast.targets) and ast.unparse(n.ast.value) == idvar
-        for n in arm)
-    builds = any(isinstance(n.ast, ast.Assign) and isinstance(
-        n.ast.value, ast.Call) and ast.unparse(n.ast.value.func).endswith(
-            'Packet') for n in arm)
-    if touches:
-        report.violation(R, 'unknown:stream', rp.path, touches[0].ast,
-                         rp.qualname, 'the unknown-id arm reads from the '
-                         'stream: it eats bytes of the next frame')
-    elif builds and sets_id:
-        report.ok(R, 'unknown id -> %s' % txt[:120])
-    else:
-        report.violation(R, 'unknown:generic', rp.path, t.ast, rp.qualname,
-                         'an unknown id does not yield a generic Packet '
-                         'carrying that id (%s)' % txt[:100])
+    for key, (node, msg) in sorted(prob.items()):
+        report.violation(R, key, rp.path, node, rp.qualname, msg)
+    if not prob:
+        report.ok(R, 'unknown id -> Packet(context) with that id, nothing '
+                  'more read from the stream (%d paths)' % n_unknown)
     if 'base' in arms:
-        report.violation(R, 'unknown:arm', fi.path, arms['base'][0],
-                         fi.qualname, 'the play reactor reacts to generic '
-                         'packets')
+        report.violation(R, 'unknown:arm', fi.path, fi.node, fi.qualname,
+                         'the play reactor reacts to generic packets')
     else:
         report.ok(R, 'no arm matches the generic packet')
 
 
-def disconnect(report, db, cg, M, P, fi, arms):
+def disconnect(report, db, cg, S, M, P, fi, arms):
     R = report.rule('R11.4', 'server disconnect closes the connection; the '
                     'exit callback is called at one site, after _run '
                     'returned, guarded by not connected')
-    if 'disconnect' not in arms:
+    dc = M.conn_method('disconnect')
+    ps = arms.get('disconnect')
+    if not ps:
         report.violation(R, 'disconnect:missing', fi.path, fi.node,
                          fi.qualname, 'a server disconnect packet is '
                          'ignored in play')
     else:
-        st, body = arms['disconnect']
-        dcs = find_calls(body, lambda c: isinstance(c.func, ast.Attribute)
-                         and c.func.attr == 'disconnect')
-        g = cfg_of(fi)
-        if dcs and every_path_passes(g, M, fi, st, dcs):
-            imm = any(k.arg == 'immediate' for c in dcs for k in c.keywords)
-            report.ok(R, 'disconnect arm calls connection.disconnect()')
-        else:
-            report.violation(R, 'disconnect:no-close', fi.path, st,
+        bad = [p for p in ps if p.returns and not any(
+            e.calls(dc) for e in p.flat(('call',)))]
+        if bad:
+            report.violation(R, 'disconnect:no-close', fi.path, fi.node,
                              fi.qualname, 'a path through the disconnect '
-                             'arm leaves the connection open')
+                             'arm leaves the connection open [%s]'
+                             % bad[0].cond_text())
+        else:
+            report.ok(R, 'disconnect arm calls connection.disconnect()')
     hx = M.conn_method('_handle_exit')
-    sites = cg.callers_of(hx)
+    inlined = set((db.norm_stats or {}).get('helpers', ()))
+    sites = [cs for cs in cg.callers_of(hx)
+             if '%s:%s' % (cs.caller.module.name, cs.caller.qualname)
+             not in inlined]
     run = M.method(M.thread, 'run')
     if len(sites) == 1 and sites[0].caller is run:
         report.ok(R, '_handle_exit called once, from NetworkingThread.run')
@@ -373,88 +362,88 @@ def disconnect(report, db, cg, M, P, fi, arms):
         if not sites:
             report.violation(R, 'exit:never', hx.path, hx.node, hx.qualname,
                              'the exit callback is never called')
-    g = cfg_of(hx)
-    calls = [n for n in g.reachable_nodes() if n.ast is not None and any(
-        ast.unparse(c.func).endswith('.handle_exit') for c in n.calls())]
-    me = hx.params[0]
-    ref = ast.parse('not %s.connected and %s.handle_exit is not None'
-                    % (me, me), mode='eval').body
-    if len(calls) == 1:
-        conds = boolfn.path_conditions(g, calls[0])
-        parts = [e if t else ast.UnaryOp(op=ast.Not(), operand=e)
-                 for e, t in conds]
-        expr = parts[0] if len(parts) == 1 else ast.BoolOp(
-            op=ast.And(), values=parts) if parts else ast.Constant(True)
-        if boolfn.same_function(expr, ref):
-            report.ok(R, 'callback guarded by not connected and handler '
-                      'set')
-        else:
-            report.violation(R, 'exit:guard', hx.path, calls[0].ast,
-                             hx.qualname, 'the exit callback runs under '
-                             '[%s]; it must run exactly when the '
-                             'connection ended without intending to '
-                             'reconnect (not connected) and a callback is '
-                             'set' % ast.unparse(expr))
-    else:
+    me = sy(hx.params[0])
+    cb = at(me, 'handle_exit')
+    prob = None
+    ncalls = 0
+    for p in S.run(hx):
+        calls = [e for e in p.flat(('call',)) if struct(e.fn) == cb]
+        connected = handler = None
+        for a, pol, _ in p.conds:
+            if a[1] == 'truth' and struct(a[2][0]) == at(me, 'connected'):
+                connected = pol
+            elif a[1] == 'is' and struct(a[2][0]) == cb and \
+                    a[2][1] == ('const', None):
+                handler = not pol
+            elif a[1] == 'truth' and struct(a[2][0]) == cb:
+                handler = pol
+        should = connected is False and handler is True
+        decided = connected is True or handler is False or should
+        ncalls += len(calls)
+        if len(calls) != (1 if should else 0) or (calls and not decided):
+            prob = 'the exit callback runs %d time(s) under [%s]; it must ' \
+                'run exactly when the connection ended without intending ' \
+                'to reconnect (not connected) and a callback is set' % (
+                    len(calls), p.cond_text())
+        elif not decided and p.returns:
+            prob = 'the exit callback is skipped under [%s]' % p.cond_text()
+    if prob:
+        report.violation(R, 'exit:guard', hx.path, hx.node, hx.qualname,
+                         prob)
+    elif not ncalls:
         report.violation(R, 'exit:calls', hx.path, hx.node, hx.qualname,
-                         'expected one invocation of handle_exit, found %d'
-                         % len(calls))
+                         'handle_exit is never invoked')
+    else:
+        report.ok(R, 'callback guarded by not connected and handler set')
 
 
-def no_drop(report, db, cg, M):
+def no_drop(report, db, S, M):
     R = report.rule('R11.6', 'every packet read from the stream is handed '
                     'to _react before the thread reads again or leaves the '
                     'loop (no packet is consumed and dropped)')
     rn = M.method(M.thread, '_run')
     react = M.conn_method('_react')
-    g = cfg_of(rn)
-    live = g.reachable_nodes()
-    reads = [n for n in live if isinstance(n.ast, ast.Assign) and any(
-        any(m.name == 'read_packet' for m, _, _ in cg.callee_funcs(rn, c))
-        for c in n.calls())]
-    if len(reads) != 1 or not isinstance(reads[0].ast.targets[0], ast.Name):
-        raise AnalysisError('_run: `packet = ...read_packet(...)` not found',
-                            rn.node, rel(rn.path))
-    rd = reads[0]
-    pv = rd.ast.targets[0].id
-    disp = [n for n in live if n.ast is not None and any(
-        any(m is react for m, _, _ in cg.callee_funcs(rn, c))
-        and [ast.unparse(a) for a in c.args] == [pv] for c in n.calls())]
-    if not disp:
-        report.violation(R, 'drop:no-dispatch', rn.path, rd.ast, rn.qualname,
-                         'the packet read is never handed to _react')
-        return
-    env = {pv: True}
-    seen = set()
-    stack = [s for s, l in rd.succ if l != 'exc']
+    nreads = 0
     lost = None
-    while stack:
-        n = stack.pop()
-        if n in seen or n in disp:
-            continue
-        seen.add(n)
-        if n is rd or n is g.exit or n is g.raise_exit:
-            lost = n
-            break
-        decided = None
-        if n.kind == 'test':
-            ats = boolfn.atoms(n.ast)
-            if ats and all(a in env for a in ats):
-                decided = boolfn.evaluate(n.ast, env)
-        for s, l in n.succ:
-            if l == 'exc':
-                continue
-            if decided is not None and l in ('true', 'false') and \
-                    (l == 'true') != decided:
-                continue
-            stack.append(s)
+
+    def scan(paths, in_loop):
+        nonlocal nreads, lost
+        for p in paths:
+            evs = [e for e in p.events]
+            for i, e in enumerate(evs):
+                if e.kind == 'loop':
+                    scan(e.paths, True)
+                    continue
+                if e.kind != 'call' or e.method() != 'read_packet' or \
+                        not any(t.name == 'read_packet'
+                                for t in (e.targets or ())):
+                    continue
+                nreads += 1
+                r = e.res
+                truthy = None
+                for a, pol, _ in p.conds:
+                    if a[1] == 'truth' and a[2][0] == r:
+                        truthy = pol
+                    elif a[1] == 'is' and a[2][0] == r and \
+                            a[2][1] == ('const', None):
+                        truthy = not pol
+                if truthy is False:
+                    continue
+                handed = [x for x in evs[i + 1:] if x.kind == 'call'
+                          and x.calls(react) and any(a == r for a in x.args)]
+                if not handed:
+                    lost = (e, p)
+    scan(S.run(rn), False)
+    if not nreads:
+        raise AnalysisError('_run: no read_packet call found', rn.node,
+                            rel(rn.path))
     if lost is None:
-        report.ok(R, 'from `%s = read_packet(...)` every path with a packet '
-                  'reaches _react(%s) first' % (pv, pv))
+        report.ok(R, 'on every iteration that read a packet, _react(packet) '
+                  'follows before the iteration ends')
     else:
-        report.violation(R, 'drop:path', rn.path, rd.ast, rn.qualname,
+        e, p = lost
+        report.violation(R, 'drop:path', rn.path, e.node, rn.qualname,
                          'a packet that was read (and so consumed from the '
-                         'stream) can be discarded: there is a path from the '
-                         'read to %s that does not pass _react(%s)'
-                         % ('the next read' if lost is rd
-                            else 'the end of _run', pv))
+                         'stream) can be discarded: the iteration [%s] ends '
+                         '(%s) without _react(packet)' % (
+                             p.cond_text(), p.outcome[0]))
